@@ -1,7 +1,7 @@
 """Shared Hypothesis strategies (construction, not rejection)."""
 from hypothesis import strategies as st
 
-from .transports import EMPTY_READ
+from .transports import EMPTY_READ  # noqa (re-exported)
 
 U32 = 2 ** 32 - 1
 BOUNDARY_U32 = [0, 1, 2, 2 ** 31 - 1, 2 ** 31, 2 ** 32 - 2, 2 ** 32 - 1]
